@@ -324,7 +324,7 @@ def is_backend_layer(rel):
 
 # entry points: name -> (file, root fn, {callee call name: (file, fn)})
 ENTRIES = [
-    ("EBackup", "commands/backup.rs", "archive", {"archive": ("archiver.rs", "archive")}),
+    ("EBackup", "commands/backup.rs", "backup", {"archive": {"free": ("commands/backup.rs", "archive"), "method": ("archiver.rs", "archive")}}),
     ("EForget", "repository.rs", "delete_snapshots", {}),
     ("EPrune", "commands/prune.rs", "prune_repository", {}),
     ("ERepairIndex", "commands/repair/index.rs", "repair_index", {}),
@@ -364,6 +364,97 @@ def find_fn(S, rel, name):
     return src, c[0]
 
 
+def tree_modifier_guarded(S):
+    """(ok, reason): the dry_run flag handed to TreeModifier::new / Rewriter::new really guards every
+    write of the object - this is what the dry-run condition attached to such a constructor site
+    stands for.  Not ok = the condition is not attached (and the fact is emitted as false)."""
+    msrc, _ = S.files.get("blob/tree/modify.rs", (None, None))
+    if msrc is None:
+        raise ExtractError("source file missing: blob/tree/modify.rs")
+    def body(fn):
+        _, (_, b, e) = find_fn(S, "blob/tree/modify.rs", fn)
+        return " ".join(msrc[b + 1:e].split())
+    st = body("save_tree")
+    adds = list(re.finditer(r"self\.packer\.add\(", st))
+    if len(adds) != 1 or not re.search(r"if [^{}]*!self\.dry_run[^{}]*\{ self\.packer\.add\([^;]*\)\?; \}", st):
+        return False, "TreeModifier::save_tree: packer.add is not guarded by !self.dry_run"
+    if not re.fullmatch(r"if !self\.dry_run \{ (?:[^{}]*) \} Ok\(\(\)\)", body("finalize")):
+        return False, "TreeModifier::finalize: packer / indexer finalize not wrapped in `if !self.dry_run`"
+    if not re.search(r"Ok\(Self \{[^}]*\bdry_run\b[^}]*\}\)", body("new")):
+        return False, "TreeModifier::new does not store its dry_run argument"
+    other = [m for m in re.finditer(r"self\.(packer|indexer|be)\b[^;]*\.(add|finalize|save_file|write_bytes|remove|delete_list)\(", msrc)]
+    if len(other) != 3:
+        return False, "TreeModifier: %d writing calls instead of three (packer.add, packer.finalize, indexer finalize)" % len(other)
+    rsrc, _ = S.files.get("blob/tree/rewrite.rs", (None, None))
+    if rsrc is None or not re.search(r"TreeModifier::new\(\s*be\s*,\s*index\s*,\s*config\s*,\s*dry_run\s*\)", rsrc):
+        return False, "Rewriter::new does not hand its dry_run argument to TreeModifier::new"
+    if re.search(r"\.(save_file|write_bytes|remove|delete_list|save_list)\s*\(", rsrc):
+        return False, "blob/tree/rewrite.rs makes a direct storage call"
+    return True, None
+
+
+FLOW = []
+
+
+def fn_params(src, fb):
+    """parameter names of the fn whose body starts at fb"""
+    ms = [m for m in re.finditer(r"\bfn\s+\w+\s*(?:<[^{;(]*>)?\s*\(", src[:fb])]
+    if not ms:
+        return []
+    o = ms[-1].end() - 1
+    c = match_brace(src, o, "(", ")")
+    names = []
+    for p in split_args(src[o + 1:c]):
+        p = p.strip()
+        if re.fullmatch(r"&?\s*(mut\s+)?self", p): continue
+        m = re.match(r"(?:mut\s+)?(\w+)\s*:", p)
+        names.append(m.group(1) if m else "?")
+    return names
+
+
+def opts_binding_keeps_dry(body, upto):
+    """does the variable `opts` visible at offset `upto` of a fn body carry the dry_run value of the
+    fn's own `opts` parameter?  Follows `let [mut] opts = ...;` shadowing in the enclosing blocks."""
+    best = None
+    for m in re.finditer(r"\blet\s+(?:mut\s+)?opts\s*=\s*", body[:upto]):
+        # the block the let lives in must still be open at `upto`
+        depth, ok = 0, True
+        for ch in body[m.end():upto]:
+            if ch == "{": depth += 1
+            elif ch == "}":
+                depth -= 1
+                if depth < 0: ok = False; break
+        if ok:
+            best = m
+    if best is None:
+        return True
+    # initialiser up to the terminating `;` at depth 0
+    i, depth = best.end(), 0
+    while i < len(body):
+        ch = body[i]
+        if ch in "({[": depth += 1
+        elif ch in ")}]": depth -= 1
+        elif ch == ";" and depth == 0: break
+        i += 1
+    init = " ".join(body[best.end():i].split())
+    later = body[i:upto]
+    if re.search(r"\bopts\.dry_run\s*=[^=]", later):
+        return False
+    if not opts_binding_keeps_dry(body, best.start()):
+        return False
+    if re.fullmatch(r"\*?opts(\.clone\(\))?", init):
+        return True
+    ms = re.fullmatch(r"\w+ \{(.*)\}", init)
+    if ms:
+        inner = ms.group(1)
+        if re.search(r"\bdry_run\s*:\s*opts\.dry_run\b", inner) or re.search(r"\bdry_run\s*,", inner + ","):
+            return True
+        if re.search(r"\.\.\s*\*?opts(\.clone\(\))?\s*$", inner.strip()):
+            return not re.search(r"\bdry_run\s*:", inner)
+        return False        # built from defaults: the flag is dropped
+    raise ExtractError("provenance of a rebuilt `opts` not understood: " + init[:100])
+
+
 def walk_entry(S, rel, fn, callees, outer_conds, depth, covered):
     """ordered events of a fn body: ('site', kind, ftype, conds, guarded, where) and ('guard', conds)"""
     if depth > 4:
@@ -388,7 +479,8 @@ def walk_entry(S, rel, fn, callees, outer_conds, depth, covered):
         if kind == "KSinkPacker":
             al = split_args(args)
             last = re.sub(r"\s+", "", al[-1]) if al else ""
-            if last in ("dry_run", "opts.dry_run"):
+            ctor = src[pos:pos + 14]
+            if last in ("dry_run", "opts.dry_run") and (S.tm_ok or not (ctor.startswith("TreeModifier") or ctor.startswith("Rewriter"))):
                 conds.append((last, False))
             # Archiver::new(be, ..) where `let be = DryRunBackend::new(.., opts.dry_run)`
             if al and re.fullmatch(r"\w+", al[0]):
@@ -398,12 +490,16 @@ def walk_entry(S, rel, fn, callees, outer_conds, depth, covered):
                     a2 = split_args(src[op + 1:match_brace(src, op, "(", ")")])
                     conds.append((re.sub(r"\s+", "", a2[-1]), False))
         events.append((pos, ("site", kind, ft, conds, "%s:%s" % (rel, fn))))
-    for cname, (crel, cfn) in callees.items():
-        if (crel, cfn) == (rel, fn):
-            continue
+    for cname, cspec in callees.items():
         for m in re.finditer(r"(?<!fn )(?<![\w:])(?:[\w.()]+\.)?\b%s\s*\(" % re.escape(cname), body):
             pos = fb + m.start()
             txt = m.group(0)
+            if isinstance(cspec, dict):
+                (crel, cfn) = cspec["method" if "." in txt else "free"]
+            else:
+                (crel, cfn) = cspec
+            if (crel, cfn) == (rel, fn):
+                continue
             # `repo.copy(` in hotcold is the local fn `copy(`; method calls on other objects named like a callee
             # are only followed when the callee table lists them for this entry
             if cname in ("copy", "archive") and "." in txt and not re.match(r"(archiver|self)\.", txt):
@@ -428,6 +524,30 @@ def walk_entry(S, rel, fn, callees, outer_conds, depth, covered):
                             a2 = split_args(src[op2 + 1:match_brace(src, op2, "(", ")")])
                             conds.append((re.sub(r"\s+", "", a2[-1]), False))
             sub = walk_entry(S, crel, cfn, callees, conds, depth + 1, covered)
+            # does the entry's dry-run flag reach the callee unchanged?
+            csrc, (_, cfb, _) = find_fn(S, crel, cfn)
+            params = fn_params(csrc, cfb)
+            op = fb + m.end() - 1
+            cargs = split_args(src[op + 1:match_brace(src, op, "(", ")")])
+            keeps = None
+            for pn, a in zip(params, cargs):
+                a = re.sub(r"[&\s]", "", a)
+                if pn == "dry_run":
+                    keeps = (keeps is not False) and a in ("dry_run", "opts.dry_run")
+                elif pn == "opts" and a == "opts":
+                    keeps = (keeps is not False) and opts_binding_keeps_dry(src[fb:fe], pos - fb)
+                elif pn == "opts":
+                    keeps = False
+            if keeps is not None and ("dry_run" in params or any(e[0] == "site" and any(norm_flag(c[0]) == "dry_run" for c in e[3]) for e in sub)):
+                label = "%s -> %s%s" % (fn, cfn, "".join(" [%s%s]" % ("" if v else "!", norm_flag(n)) for (n, v) in block_conds(src, fb, fe, pos) if not n.startswith("?")) or "")
+                k = 2
+                base = label
+                while any(x[0] == label for x in FLOW):
+                    label = "%s #%d" % (base, k); k += 1
+                FLOW.append((label, bool(keeps)))
+                if not keeps:
+                    # the callee's dry-run value is not the entry's flag: its conditions do not count
+                    sub = [(e[0], e[1], e[2], [c for c in e[3] if norm_flag(c[0]) != "dry_run"]) + tuple(e[4:]) if e[0] == "site" else e for e in sub]
             # callee with its own unconditional guard before all of its sites: sites are self-guarded
             gi = [i for i, e in enumerate(sub) if e[0] == "guard"]
             if gi:
@@ -561,6 +681,8 @@ def gen(repo):
     for k in [k for k, v in FLAGS.items() if v > 2]:
         del FLAGS[k]
     S = Source(repo)
+    del FLOW[:]
+    S.tm_ok, S.tm_reason = tree_modifier_guarded(S)
     meta = {}
     out = ["(* GENERATED by props/C15/extract.py from crates/core/src - do not edit *)",
            "From Coq Require Import String List Bool NArith.", "From Verif.C15 Require Import ModelBase.",
@@ -697,35 +819,14 @@ def gen(repo):
     out.append("Definition indexer_max_count : N := %d%%N." % maxc)
     out.append("Definition indexer_save_needs_packs : bool := %s.\n" % ("true" if save_needs_packs else "false"))
     meta["indexer_max_count"] = maxc
-    # ---- TreeModifier / Rewriter (blob/tree/modify.rs, rewrite.rs): the dry_run flag handed to the
-    # constructor really guards every write of the object (this is what the dry-run condition
-    # attached to a `TreeModifier::new(.., dry_run)` / `Rewriter::new(.., dry_run)` site stands for)
-    msrc, _ = S.files.get("blob/tree/modify.rs", (None, None))
-    if msrc is None:
-        raise ExtractError("source file missing: blob/tree/modify.rs")
-    _, (_, b, e) = find_fn(S, "blob/tree/modify.rs", "save_tree")
-    st = " ".join(msrc[b + 1:e].split())
-    adds = list(re.finditer(r"self\.packer\.add\(", st))
-    if len(adds) != 1 or not re.search(r"if [^{}]*!self\.dry_run[^{}]*\{ self\.packer\.add\([^;]*\)\?; \}", st):
-        raise ExtractError("TreeModifier::save_tree: packer.add is no longer guarded by !self.dry_run")
-    _, (_, b, e) = find_fn(S, "blob/tree/modify.rs", "finalize")
-    fz = " ".join(msrc[b + 1:e].split())
-    if not re.fullmatch(r"if !self\.dry_run \{ (?:[^{}]*) \} Ok\(\(\)\)", fz):
-        raise ExtractError("TreeModifier::finalize: packer / indexer finalize no longer wrapped in `if !self.dry_run`")
-    _, (_, b, e) = find_fn(S, "blob/tree/modify.rs", "new")
-    nw = " ".join(msrc[b + 1:e].split())
-    if not re.search(r"Ok\(Self \{[^}]*\bdry_run\b[^}]*\}\)", nw):
-        raise ExtractError("TreeModifier::new no longer stores its dry_run argument")
-    other = [m for m in re.finditer(r"self\.(packer|indexer|be)\b[^;]*\.(add|finalize|save_file|write_bytes|remove|delete_list)\(", msrc)]
-    if len(other) != 3:
-        raise ExtractError("TreeModifier: expected exactly three writing calls (packer.add, packer.finalize, indexer finalize), found %d" % len(other))
-    rsrc, _ = S.files.get("blob/tree/rewrite.rs", (None, None))
-    if rsrc is None or not re.search(r"TreeModifier::new\(\s*be\s*,\s*index\s*,\s*config\s*,\s*dry_run\s*\)", rsrc):
-        raise ExtractError("Rewriter::new no longer hands its dry_run argument to TreeModifier::new")
-    if re.search(r"\.(save_file|write_bytes|remove|delete_list|save_list)\s*\(", rsrc):
-        raise ExtractError("blob/tree/rewrite.rs makes a direct storage call")
-    out.append("(* blob/tree/modify.rs, rewrite.rs: every write of a TreeModifier / Rewriter is under `!self.dry_run` (verified shape) *)")
-    out.append("Definition tree_modifier_dry_guarded : bool := true.\n")
+    out.append("(* blob/tree/modify.rs, rewrite.rs: every write of a TreeModifier / Rewriter is under `!self.dry_run`: %s *)" % (S.tm_reason or "verified shape"))
+    out.append("Definition tree_modifier_dry_guarded : bool := %s.\n" % ("true" if S.tm_ok else "false"))
+    meta["tree_modifier_dry_guarded"] = S.tm_ok
+    # ---- does the dry-run flag of the entry point reach the callee unchanged (option structs that are
+    # cloned / rebuilt on the way, plain `dry_run` arguments)
+    out.append("Definition dry_flag_flow : list (string * bool) :=\n  [ " + ";\n    ".join(
+        "(%s, %s)" % (coq_str(k), "true" if v else "false") for (k, v) in FLOW) + " ].\n")
+    meta["dry_flag_flow"] = list(FLOW)
     # save_config: cold (authoritative) config first, then the hot copy
     ssrc, (_, sb, se) = find_fn(S, "commands/config.rs", "save_config")
     sbody = ssrc[sb:se]
